@@ -366,6 +366,28 @@ def check_custom_names(ctx, pp):
     ctx.case("sort_tree-custom-names", dict(parent_row=list(pp)), nontrivial=n >= 2)
 
 
+def tree_shapes(n, rng):
+    """(name, parent list in a canonical numbering: node 0 is the root, parent[k] < k) -- the SHAPE of the tree is part of the input space:
+    deep path-like trees (a chain, a comb = a spine with one-node teeth, a caterpillar = a long spine with leaves), flat ones (a star) and
+    random recursive trees; an operation whose cost or correctness depends on the depth / the fan-out meets each of them at every size"""
+    chain = [-1] + list(range(n - 1))
+    m = (n + 1) // 2  # comb: spine 0..m-1, tooth m+i hangs on spine node i
+    comb = [-1] + list(range(m - 1)) + [i for i in range(n - m)]
+    sp = max(1, n - max(1, n // 4))  # caterpillar: a long spine, the remaining nodes are leaves on random spine nodes
+    cat = [-1] + list(range(sp - 1)) + [rng.randrange(sp) for _ in range(n - sp)]
+    star = [-1] + [0] * (n - 1)
+    rnd = [-1] + [rng.randrange(i) for i in range(1, n)]
+    return [("chain", chain), ("comb", comb), ("caterpillar", cat), ("star", star), ("random", rnd)]
+
+
+def place(parent, perm):
+    """the tree `parent` (canonical numbering) with node i in row perm[i]: parent ROW of every row"""
+    pp = [0] * len(parent)
+    for i, q in enumerate(parent):
+        pp[perm[i]] = -1 if q == -1 else perm[q]
+    return pp
+
+
 def labellings(n, rng, full):
     """Injective id labellings of the rows."""
     if full:
@@ -459,13 +481,34 @@ def run(ctx):
                 pt[keep0[i]] = -1 if parent[i] == -1 else keep0[parent[i]]
             for prf in PROFILES[t % 2::2]:
                 check_case(lim, "sort_tree", pt, tuple(range(n)), prf, dup=t % 2 == 1)
+        # shapes x every size 2..40: deep path-like trees (chain, comb) through EVERY form at EVERY length, caterpillars / stars / random
+        # trees through rotating forms; rows shuffled (root anywhere), ids shuffled and non-contiguous; tree objects: root first, the
+        # other rows shuffled (ids = positions, i.e. a chain numbered out of order)
+        forms = ("sort_nodes", "sort_nodes_", "read_swc", "sort_tree", "sort_nodes_impl")
+        for n in range(2, (64 if thorough else 40) + 1):
+            for hi, (shape, parent) in enumerate(tree_shapes(n, rng)):
+                todo = forms if shape in ("chain", "comb") else (forms[(n + hi) % 4], forms[(n + hi + 2) % 4])
+                for fi, form in enumerate(todo):
+                    e = (n + hi + fi) % 3
+                    if form == "sort_tree":
+                        perm = [0] + rng.sample(range(1, n), n - 1)
+                        check_case(lim, form, place(parent, perm), tuple(range(n)), e)
+                        continue
+                    perm = rng.sample(range(n), n)
+                    ids = rng.sample(range(1, 50 * n), n) if (n + fi) % 3 else rng.sample(range(n), n)
+                    if form == "read_swc":
+                        check_case(lim, form, place(parent, perm), ids, e, base)
+                    else:
+                        check_case(lim, form, place(parent, perm), ids, 0 if form == "sort_nodes_impl" else e)
         ctx.rule(
             f"every rooted labelled tree on the rows of a table with <= {nmax} rows (= all row permutations of all sorted tables, root at any row) x "
             "id labellings (all permutations of 0..n-1 for n<=4 and the non-contiguous {3,10,11,20,..}; contiguous/reversed/non-contiguous/shuffled/1-based above) for sort_nodes_impl; "
             "data-frame and file forms on every structure <= 5 rows with 0-2 extra columns and rotating labellings; sort_tree on every tree with root 0 x 0-2 extra columns, and (<= 4 nodes) with user-chosen column names; "
             "each result sorted a second time. Fourth session: extra columns of the dtype families int64 (~2**62) / uint64 (> 2**63) / float32 / float64 with 17 digits / bool / str / int32 / float16 "
             "x ids 10**12 + ... x duplicate coordinates, rotating over all structures <= 5 rows for the table, file (float families) and tree forms; 6 (12) random tables of 9 / 17 / 33 rows with the root in the "
-            "last / middle / first row x every dtype family; all values compared exactly in their own type. Non-trivial = >= 2 nodes",
+            "last / middle / first row x every dtype family; all values compared exactly in their own type. Shapes (round g): chain and comb of EVERY size 2..40 (thorough 64) through "
+            "sort_nodes / sort_nodes_ / read_swc(sort_nodes=True) / sort_tree / sort_nodes_impl, caterpillar / star / random recursive tree of every size through two rotating forms, rows shuffled "
+            "(root anywhere; tree objects: root first, other rows shuffled), ids shuffled (non-contiguous or a permutation of 0..n-1). Non-trivial = >= 2 nodes",
             exhaustive=True,
         )
         ctx.notes.append("sort_nodes_impl's docstring calls its second result 'id_map: new id -> original id'; the value returned is new id -> original ROW index "
